@@ -90,6 +90,34 @@ def one(R, tree, search, replace, cmd, fails, stats):
                           "search": search, "replace": replace})
 
 
+def occupied_variant(tree, search, replace, r, k):
+    """the same tree with an unplanned entry sitting at the destination of one planned rename (file, empty directory, symlink to
+    the renamed entry, dangling symlink). The unchanged code refuses such an apply (counted as apply_failed); should a variant
+    of the code let it through, undo has to bring the occupant back as well."""
+    if replace == "":
+        return None
+    with cli.Sandbox(tree) as sb:
+        rc, o, e = sb.run(["--no-auto-init", "plan", search, replace, "--dry-run", "--output", "json", "--quiet"])
+        if rc != 0:
+            return None
+        try:
+            doc = json.loads(o.decode("utf-8"))
+            plan = al.relativize(doc.get("plan", doc), sb.root)
+        except Exception:
+            return None
+    paths = [p for p in plan.get("paths", []) if p.get("new_path")]
+    if not paths:
+        return None
+    ren = r.choice(paths)
+    dest = ren["new_path"]
+    names = {e["p"] for e in tree}
+    if dest in names or search.lower().replace("_", "") in dest.rsplit("/", 1)[-1].lower().replace("_", "").replace("-", ""):
+        return None      # the occupant would itself be renamed (replacement contains the term)
+    occ = [{"p": dest, "k": "l", "t": ren["path"].rsplit("/", 1)[-1]}, {"p": dest, "k": "f", "c": b"occupant\n", "m": 0o640},
+           {"p": dest, "k": "d", "m": 0o755}, {"p": dest, "k": "l", "t": "nowhere"}][k % 4]
+    return tree + [occ]
+
+
 def run(R):
     R.trusted += ["Coq 8.16.1 kernel", "harness (patch_headers, diffy ops)", "extraction + modelrun.ml"]
     proved = R.prove()
@@ -99,6 +127,11 @@ def run(R):
     for i in range(n):
         tree, search, replace = scenario(g, i)
         one(R, tree, search, replace, CMDS[i % 3], fails, stats)
+        if i % 3 != 2:
+            t2 = occupied_variant(tree, search, replace, g.r, stats.get("occupied_destination_variants", 0))
+            if t2 is not None:
+                stats["occupied_destination_variants"] = stats.get("occupied_destination_variants", 0) + 1
+                one(R, t2, search, replace, CMDS[i % 3], fails, stats)
     R.coverage["input_distribution"] = stats
     dis = tie(R, g)
     R.disagreements = len(dis)
